@@ -14,7 +14,8 @@
    set is the limitation; everything else is explored, not proved). *)
 From Coq Require Import ZArith List Bool.
 From PTK Require Import Lib.Sx Lib.Py Lib.C05_Filter Gen.C05_Bindings Model.Document
-  Model.C05_Dispatch Model.C05_Editor Proofs.C05_EditorFacts Proofs.C05_EscapeFacts Proofs.C05_Main.
+  Model.C05_Dispatch Model.C05_Editor Proofs.C05_EditorFacts Proofs.C05_EscapeFacts Proofs.C05_Main
+  Proofs.C05_MultiCursor Proofs.C05_DispatchFacts Proofs.C05_DispatchCheck.
 Import ListNotations.
 Open Scope Z_scope.
 
@@ -133,6 +134,88 @@ Theorem C05_step_total_needs_multicursor_range :
   exists s, EInv s /\ ~ MInv s /\ call_handler HViBackspaceMulti s 1 [] = EErr E_INDEX s.
 Proof. exact stale_multicursor_escapes. Qed.
 Print Assumptions C05_step_total_needs_multicursor_range.
+
+(* Multiple cursors - in Vi insert-multiple mode the five editing handlers
+   (typed character, Backspace, Delete, Left, Right), run through
+   _call_handler from any state whose cursors are sorted and inside the text
+   (MWF), leave them sorted and inside the text - for any data of at least one
+   character, read-only buffers and swallowed exceptions included; lifted to
+   every sequence of such keys.  (Entering the mode - block selection + I/A -
+   and leaving the text alone while in it is what the findings F8/F9 and the
+   seeded change C05-7 were about: that part is explored, not proved.) *)
+Theorem C05_multicursor_inv : forall h s arg data,
+  multi_handler h -> MWF s -> (h = HViInsertMulti -> 1 <= len data) ->
+  MWF (eres_st (call_handler h s arg data)).
+Proof. exact call_multi_wf. Qed.
+Print Assumptions C05_multicursor_inv.
+
+Theorem C05_multicursor_sequence_inv : forall ks s,
+  (forall h a d, In (h, a, d) ks -> multi_handler h /\ (h = HViInsertMulti -> 1 <= len d)) ->
+  MWF s -> MWF (fold_left mstep ks s).
+Proof. exact multi_steps_wf. Qed.
+Print Assumptions C05_multicursor_sequence_inv.
+
+Theorem C05_multicursor_wf_in_range : forall s, MWF s -> MInv s.
+Proof. exact MWF_MInv. Qed.
+Print Assumptions C05_multicursor_wf_in_range.
+
+(* Dispatch, any table, any valuation, ANY non-empty key buffer: what is called
+   is a row of the table, active, whose keys are exactly the consumed prefix; a
+   key is dropped only when no active row matches any prefix; the processor
+   waits only before the flush, while a longer active row may still match and
+   no eager exact match exists. *)
+Theorem C05_dispatch_sound : forall tbl v ks flush idx n,
+  ks <> [] -> match_step tbl v ks flush = Call idx n -> called_ok tbl v ks idx n.
+Proof. exact match_step_sound. Qed.
+Print Assumptions C05_dispatch_sound.
+
+Theorem C05_dispatch_drop : forall tbl v ks flush,
+  match_step tbl v ks flush = DropOne ->
+  forall j, (1 <= j <= length ks)%nat -> get_matches tbl v (firstn j ks) = [].
+Proof. exact match_step_drop. Qed.
+Print Assumptions C05_dispatch_drop.
+
+Theorem C05_dispatch_wait : forall tbl v ks flush,
+  match_step tbl v ks flush = Wait ->
+  flush = false /\ is_prefix_of_longer tbl v ks = true /\
+  filter (fun ib => feval v (beager (snd ib))) (get_matches tbl v ks) = [].
+Proof. exact match_step_wait. Qed.
+Print Assumptions C05_dispatch_wait.
+
+(* Escape with a NON-EMPTY key buffer, over the regenerated table, every
+   valuation (Vi mode, focus, no quoted insert):
+   - after a key that awaits a character argument (f F t T r dquote q @), in
+     navigation / selection / operator-pending mode, both keys go to
+     _back_to_navigation at once (eager);
+   - after ANY key that can be pending (a one-key buffer waits only for a first
+     key of a multi-key row, and no such row starts with the wildcard), the
+     processor never waits: both keys go to _back_to_navigation, or exactly one
+     key is consumed or dropped and Escape is dispatched again on its own -
+     where C05_escape applies. *)
+Theorem C05_escape_after_char_argument_key : forall (v : Z -> bool) (flush : bool) (p m : Z),
+  In p char_arg_prefixes -> In m pending_modes -> v m = true ->
+  v a_vi_mode = true -> v a_emacs_mode = false -> v a_buffer_has_focus = true ->
+  v a_in_quoted_insert = false ->
+  calls_back_to_nav 2 (match_step bindings v [p; K_Escape] flush) = true.
+Proof. exact escape_after_prefix. Qed.
+Print Assumptions C05_escape_after_char_argument_key.
+
+Theorem C05_escape_after_pending_key : forall (v : Z -> bool) (flush : bool) (k : Z),
+  In k first_keys ->
+  v a_vi_mode = true -> v a_emacs_mode = false -> v a_buffer_has_focus = true ->
+  v a_in_quoted_insert = false ->
+  escape_progress (match_step bindings v [k; K_Escape] flush) = true.
+Proof. exact escape_after_any_pending. Qed.
+Print Assumptions C05_escape_after_pending_key.
+
+Theorem C05_pending_key_is_first_key : forall (v : Z -> bool) (flush : bool) (k : Z),
+  match_step bindings v [k] flush = Wait -> In k first_keys \/ In K_Any first_keys.
+Proof. exact pending_key_is_first_key. Qed.
+Print Assumptions C05_pending_key_is_first_key.
+
+Theorem C05_no_wildcard_first_key : mem_Z K_Any first_keys = false.
+Proof. exact no_wildcard_first_key. Qed.
+Print Assumptions C05_no_wildcard_first_key.
 
 (* L4 - accept returns exactly the buffer text *)
 Theorem C05_accept_returns_text : forall s, accept_result s = et s.
